@@ -3,7 +3,7 @@ From Coq Require Import Arith NArith List Lia Bool.
 From RTA.Model Require Import Base Arrival Wcet Demand Eval WellFormed.
 From RTA.Spec Require Import Sched Events TaskModel.
 From RTA.Proofs Require Import FifoSound Workload FifoEndToEnd.
-From RTA.Proofs Require Import GeneralCosts.
+From RTA.Proofs Require Import GeneralCosts MultiframeWindow MultiframeBridge.
 
 (* End to end: if the analysis (public entry point, either build profile) returns Ok R for a task set, then
    for EVERY finite job set whose releases are admissible for the tasks' arrival models (Spec/Events.v) and
@@ -52,3 +52,19 @@ Definition C03_general_costs_bound_attained := gx_fifo_tight.
 (* Multiframe [1;3]: cost_of_jobs charges the FIRST n frames; a job set costing 1,3 (the frames in order) violates
    respects_cost_models (the second job alone costs 3 > cost_of_jobs 1 = 1) and exceeds the FIFO bound Ok 1 *)
 Definition C03_multiframe_needs_accumulatively_monotonic_frames := multiframe_first_frames_refuted.
+(* ... and the positive counterpart (Proofs/MultiframeWindow.v, MultiframeBridge.v): for a NON-INCREASING frame vector
+   cost_of_jobs n = the first n frames of the cycle bounds EVERY run of n consecutive frames, whatever frame the run starts at,
+   so jobs cycling through the frames from any starting frame, each costing at most its frame, satisfy blocks_bounded -- the
+   hypothesis respects_cost_models of the general-cost theorems is dischargeable for such Multiframe tasks *)
+Theorem C03_multiframe_nonincreasing_every_window_bounded : forall l s n, l <> [] -> nonincreasing l ->
+  sumN (map (fun i => frame_at l (s + i)) (rangeN 0 n)) <= cost_of_jobs (Multiframe l) n.
+Proof. exact multiframe_window_bound. Qed.
+Theorem C03_multiframe_cost_is_first_window : forall l n, l <> [] ->
+  cost_of_jobs (Multiframe l) n = sumN (map (frame_at l) (rangeN 0 n)).
+Proof. exact multiframe_cost_is_first_window. Qed.
+Theorem C03_multiframe_nonincreasing_jobs_respect_cost_model : forall (l : list N) (s : N) (js : list job),
+  l <> [] -> nonincreasing l ->
+  (forall p, (p < length js)%nat -> N.of_nat (j_cost (nth p js jd)) <= frame_at l (s + N.of_nat p)) ->
+  blocks_bounded (Multiframe l) js.
+Proof. exact multiframe_jobs_blocks_bounded. Qed.
+Definition C03_multiframe_nonincreasing_nonvacuous := multiframe_bridge_example.
